@@ -674,7 +674,7 @@ def check(run, prog, tier):
         return defs
     nl_ = 0
     for f in sorted(comm.funcs.values(), key=lambda x: x.line):
-        if not f.calls("async_queue_dequeue"):
+        if not any(True for _ in f.calls("async_queue_dequeue")):
             continue
         for b, i, n in f.calls():
             g = comm.funcs.get(n.get("fn") or "")
